@@ -13,7 +13,8 @@ TRUSTED_BASE = [
     'statements in chess/Chess/Spec and chess/Chess/Props (what the property means)',
     'hand-written model chess/Chess/Model/* tied to /repo by this correspondence run (Rust harness + compiled Lean driver + this comparer)',
     'u64 intrinsics (trailing_zeros, leading_zeros, count_ones) modelled by definition; usize clocks as Nat (no overflow, K1)',
-    'rand/ChaCha key generation not modelled: the 785 keys are dumped from the running implementation on every run',
+    'rand StdRng (PCG32 seed expansion + ChaCha12 + BlockRng::next_u64) is modelled (Model/Rng.lean, kernel-checked against RFC 7539 / rand_chacha vectors) and proved to produce the committed key table from the SEED constant; the table is also dumped from the running implementation on every run and re-proved good by the kernel if it differs',
+    'M0 (declarative spec) is executed on a sample of the op lines only; M1 = M0 is a theorem for the sampled observations (C01-C06, C13, C14)',
     'regex, textwrap, colored crates: parameters with recorded assumptions (ScanOK, WrapOK, PaintOK), checked on every case run',
 ]
 
@@ -310,6 +311,8 @@ def compare_group(prop, group, rundir, stats):
             iv, mv, sv = I.get(k), M1.get(k), M0.get(k)
             if iv is None and mv is None:
                 continue
+            if group == 'corpus' and k == 'hash':
+                continue
             if op == 'zob' and k == 'keys' and iv is not None:
                 rngv = M1.get('rng')
                 stats.setdefault('key_table', {})
@@ -593,6 +596,19 @@ def run_property(prop, tier, seed):
             f, md = compare_group(prop, g, rd, stats)
             findings += f
             model_dis += md
+        # corpus: discriminating inputs kept from earlier detections (one per seeded change), replayed on every run
+        cpath = os.path.join(VERIF, 'corpus', f'{prop}.ops')
+        if os.path.exists(cpath):
+            try:
+                rd, tm = run_group('replay', tier, seed, extra_env={'VERIF_REPLAY_OPS': cpath, 'VERIF_CORPUS': prop + ':' + hashlib.sha256(open(cpath, 'rb').read()).hexdigest()[:12]})
+                timing['corpus'] = tm
+                before = stats['evaluations']
+                f, md = compare_group(prop, 'corpus', rd, stats)
+                stats['corpus_ops'] = stats['evaluations'] - before
+                findings += f
+                model_dis += md
+            except (RuntimeError, subprocess.TimeoutExpired) as e:
+                log(f'[{prop}] corpus run failed: {e}')
         findings += extra_checks(prop, rundirs, stats)
 
     # --- verdicts ------------------------------------------------------------------------
@@ -648,7 +664,7 @@ def run_property(prop, tier, seed):
         per_op=stats['per_op'], groups=list(spec['groups']), timing=timing, generator=gen,
         model_disagreements=len(model_dis), exhaustive=bool(reg.get('exhaustive_tie', False)),
     )
-    for k in ('transposition_keys', 'distinct_moves_roundtripped', 'invalid_positions', 'key_table'):
+    for k in ('transposition_keys', 'distinct_moves_roundtripped', 'invalid_positions', 'key_table', 'corpus_ops'):
         if k in stats:
             cov[k] = stats[k]
     if level != 'proof' or obligations == 0:
